@@ -160,8 +160,42 @@ func RuleAddr(r *Report, p *Program) {
 				}
 			}
 		}
+		// an address the parser accepts is never rendered as the empty text: "" is returned only for a value
+		// that is not a valid address or whose port the role forbids
+		{
+			w3 := NewWalker(p)
+			tpk := p.SSAPkg("types")
+			w3.Inline = func(f *ssa.Function, d int) bool { return f.Parent() != nil || (pkgOf(f) == tpk && f != sfn) }
+			for _, pa := range w3.Walk(sfn, []*Term{{Op: "param", Name: "a", Typ: sfn.Params[0].Type()}}, nil) {
+				if pa.Outcome != "return" {
+					continue
+				}
+				if txt, isConst := pa.Results[0].StrVal(); !isConst || txt != "" {
+					continue
+				}
+				justified := false
+				for k, v := range pa.State.Bools {
+					if !v && strings.Contains(k, "IsValid(") && (strings.HasPrefix(k, "(netip.Addr).IsValid") || strings.HasPrefix(k, "(netip.AddrPort).IsValid")) {
+						justified = true
+					}
+				}
+				forb := IntervalSet{{0, 0}}
+				for _, f := range rs.Forbidden {
+					forb = append(forb, Interval{f, f})
+				}
+				for k, v := range pa.State.Ints {
+					if strings.Contains(k, "Port(") && v.Intersect(complement(normaliseUnion(forb))).Empty() {
+						justified = true
+					}
+				}
+				if !justified {
+					bad2 = "String() renders a value as the empty text under [" + cut(pa.State.Describe(), 160) + "] although the parser accepts such an address: it does not parse back"
+				}
+			}
+		}
 		om := normaliseUnion(omitted)
 		switch {
+		case bad2 != "":
 		case rs.Default == nil:
 			if !om.Empty() {
 				bad2 = "String() omits port(s) " + om.String() + " although the port is mandatory for this role"
